@@ -64,20 +64,21 @@ claim('C10',
       "DESIGN.md section 5, C10")
 claim('C11',
       SCOPE + "Proved: create_dir_all (loop invariant over component boundaries) adds only directories at component prefixes, leaves every existing entry untouched and on Ok every prefix is a directory - against a backend that may fail at every call; remove_dir_all: absent path is a no-op success, everything changed lies below the path, Ok implies the path is gone, wf preserved (recursion, termination not proved); "
-      "copy_file / move_file (rule R16): an existing destination is refused with the world unchanged, Ok implies the destination holds exactly the source bytes (and for move the source is gone), only the destination (and source) entries change, same-instance fast path and generic route both covered (Arc identity token). copy_dir/move_dir are not under contract.",
-      "std::io::copy and handle writes are modelled write-through at the World level (sessions atomic, see DESIGN 4.3); fast-path trait methods assumed to meet tc_copy_file/tc_move_file.",
+      "copy_file / move_file (rule R16): an existing destination is refused with the world unchanged, Ok implies the destination holds exactly the source bytes (and for move the source is gone), only the destination (and source) entries change, same-instance fast path and generic route both covered (Arc identity token). "
+      "copy_dir / move_dir (closure lifted by R16, the for loop over the real WalkDirIterator by R12b): an existing destination is refused with the world unchanged; only entries at or below the destination (move_dir: and at or below the source) change, every independent filesystem stays the same up to access times; on Ok(n) of copy_dir there are exactly n entries - the ones the traversal yielded - and each has its counterpart at destination + (entry minus source prefix) with the same kind and, for files, the same bytes (the target path is computed from the join contract), the destination directory exists; move_dir on Ok leaves no entry at the source path (fast path through an assumed tc_move_dir, generic route = the copy loop + remove_dir_all). Precondition: same instance, or a destination whose mutations cannot reach the source. Not proved: that the traversal yields every descendant (bounded: copydir, tree.* oracles), termination.",
+      "std::io::copy and handle writes are modelled write-through at the World level (sessions atomic, see DESIGN 4.3); fast-path trait methods assumed to meet tc_copy_file/tc_move_file/tc_move_dir; the u64 entry counter of copy_dir is assumed not to overflow (rule R31).",
       "DESIGN.md section 5, C11")
 claim('C20',
-      SCOPE + "Falls out of modularity: in every proof of U06-U09 a callee into an underlying filesystem is known only through TC, which allows Err at every call; the discharged clauses 'Ok ==> full effect' (create_dir_all, remove_dir_all, copy_file, move_file, read_to_string, get_parent, is_file/is_dir, walk next, every AltrootFS/OverlayFS method) therefore hold for every position k of a failing call and every history, "
+      SCOPE + "Falls out of modularity: in every proof of U06-U09 a callee into an underlying filesystem is known only through TC, which allows Err at every call; the discharged clauses 'Ok ==> full effect' (create_dir_all, remove_dir_all, copy_file, move_file, copy_dir, move_dir, read_to_string, get_parent, is_file/is_dir, walk next, every AltrootFS/OverlayFS method) therefore hold for every position k of a failing call and every history, "
       "and the OverlayFS frame (never a lower layer) is unconditional. OverlayFS::exists no longer maps layer errors to Ok(false) (fix commit).",
-      "Fault kinds are the ones TC allows (any error that is not DirectoryExists/FileExists from observers); copy_dir/move_dir not covered.",
+      "Fault kinds are the ones TC allows (any error that is not DirectoryExists/FileExists from observers); for copy_dir/move_dir the generated clause 'faults increased ==> Err' is discharged through the loop (invariant no_fault), the 'full effect' part is the exactness clause relative to the entries the traversal yielded.",
       "DESIGN.md section 5, C20")
 
 claim('C13',
       "Panic-freedom is the implicit obligation set Verus generates for every extracted function (arithmetic overflow/underflow, index and slice bounds, char boundaries of str slices, unwrap/expect on None/Err, unreachable panics, callee preconditions), checked for ALL arguments under the type invariants canonical(path) and layers.len() >= 1. "
-      "Discharged for every function under contract in U01-U14 and in the async units U21-U30 (async path type, AsyncMemoryFS and its read handle, AsyncAltrootFS, AsyncOverlayFS, the poll_next state machine - read through rule R30): all MemoryFS methods and both handle types, PathLike, every VfsPath method except copy_dir/move_dir, WalkDirIterator::next, AltrootFS, OverlayFS (incl. read_dir's byte-length slicing of the '_wo' suffix), PhysicalFS::get_path/create_dir, EmbeddedFS::normalize_path/exists/refusals, error conversions, trait defaults. "
+      "Discharged for every function under contract in U01-U14 and in the async units U21-U30 (async path type, AsyncMemoryFS and its read handle, AsyncAltrootFS, AsyncOverlayFS, the poll_next state machine - read through rule R30): all MemoryFS methods and both handle types, PathLike, every VfsPath method except new (copy_dir/move_dir: the slice that cuts the source prefix off is in bounds and on a char boundary because every yielded path lies strictly below the source), WalkDirIterator::next, AltrootFS, OverlayFS (incl. read_dir's byte-length slicing of the '_wo' suffix), PhysicalFS::get_path/create_dir, EmbeddedFS::normalize_path/exists/refusals, error conversions, trait defaults. "
       "Seven panics found this way were genuine and are repaired by fix: commits (reader len/seek, EmbeddedFS::open_file on the root, PhysicalFS read_dir/create_dir unwraps; the same unwraps in AsyncPhysicalFS).",
-      "Not covered (listed in evidence): functions out of Verus's reach - PhysicalFS methods other than get_path/create_dir (std::fs calls), EmbeddedFS::new/read_dir/metadata/open_file (rust-embed), copy_dir/move_dir, VfsPath::new, of the async port AsyncPhysicalFS and the write handle's poll delegations; lock poisoning (unwrap on RwLock) is excluded by rule R4; termination of remove_dir_all is not proved. Bounded stand-ins (oracle crate) cover part of the rest in the thorough tier.",
+      "Not covered (listed in evidence): functions out of Verus's reach - PhysicalFS methods other than get_path/create_dir (std::fs calls), EmbeddedFS::new/read_dir/metadata/open_file (rust-embed), VfsPath::new, of the async port AsyncPhysicalFS, the write handle's poll delegations and copy_dir/move_dir; lock poisoning (unwrap on RwLock) is excluded by rule R4; termination of remove_dir_all / copy_dir / move_dir / the walk is not proved; the u64 entry counter of copy_dir is assumed not to overflow (R31). Bounded stand-ins (oracle crate) cover part of the rest in the thorough tier.",
       "DESIGN.md section 5, C13")
 claim('C18',
       "Proved for the parts inside the crate that Verus can reach: the five mutators (create_dir, create_file, append_file, remove_file, remove_dir) return NotSupported for every path (and, taking &self on a struct without interior mutability, change nothing); exists is total and reports the root as existing; normalize_path strips exactly the leading '/' without panicking on any canonical path (after the fix commit open_file uses it too).",
